@@ -369,7 +369,11 @@ def exact_normal(rep, mir, L, d):
             for (n, args, term) in A.used:
                 if n == 'sin': ax.append(term * term + cos(args[0]) * cos(args[0]) == 1)
             E1 = o['kinetic_energy'] - (o['logp'] + o['logdet']); E0 = st['ke'] - (st['logp'] + S.logdet.v)
-            _check(rep, 'C02.e ExactNormal conserves energy exactly on a standard normal (d=%d %s)' % (d, direction), 'exact_normal.energy', S.pre + ident + m.pc + ax + [E1 != E0], 'ExactNormal integrator changes the energy on a standard-normal target', timeout=240000)
+            # the identity transformation is substituted (sigma = 1, mu = 0) instead of being handed over as equations: what is left is a polynomial
+            # identity in the state and in sin / cos of the step with sin^2 + cos^2 = 1, which no longer depends on the solver's luck
+            sub = [(x.v, z3.RealVal(1)) for x in S.sigma] + [(x.v, z3.RealVal(0)) for x in S.mu]
+            cons = [z3.simplify(z3.substitute(c_, *sub)) for c_ in (S.pre + m.pc + ax + [E1 != E0]) if z3.is_expr(c_)] + [c_ for c_ in (S.pre + m.pc) if not z3.is_expr(c_)]
+            _check(rep, 'C02.e ExactNormal conserves energy exactly on a standard normal (d=%d %s)' % (d, direction), 'exact_normal.energy', cons, 'ExactNormal integrator changes the energy on a standard-normal target', timeout=240000)
     rep.axioms.append('sin(t)^2 + cos(t)^2 = 1 on the occurring arguments'); rep.absorb_vm(S.vm)
 
 def exact_normal_scheme(rep, mir, L, d, tkind):
